@@ -113,9 +113,31 @@ fn mk_line(r: &mut Rng, enc: Enc, style: u64) -> LineOut {
         h.default_is_stmt_raw = 1;
         h.pad = vec![];
         h.max_ops = if enc.version >= 4 && style % 2 == 1 { *r.pick(&[2u8, 4, 255]) } else { 1 };
+        // two directories and two files that the program's DW_LNS_set_file can refer to, so that
+        // the read->write converters accept the unit and reach the writer
+        use mline::AV;
+        if enc.version <= 4 {
+            h.dirs_v4 = vec![b"sub".to_vec()];
+            h.files_v4 = vec![(b"a.c".to_vec(), 0, 0, 0), (b"b.c".to_vec(), 1, 3, 4)];
+        } else {
+            let pf = if style % 4 == 1 { mline::FORM_LINE_STRP } else { mline::FORM_STRING };
+            let path = |tabs: &mut gline::Tabs, s: &[u8]| if pf == mline::FORM_LINE_STRP { AV::LineStrp(tabs.line_str.add(s)) } else { AV::Str(s.to_vec()) };
+            h.dir_fmt = vec![(mline::LNCT_PATH, pf)];
+            h.dirs_v5 = vec![vec![path(&mut tabs, b"/d")], vec![path(&mut tabs, b"sub")]];
+            h.file_fmt = vec![(mline::LNCT_PATH, pf), (mline::LNCT_DIRECTORY_INDEX, mline::FORM_UDATA)];
+            h.files_v5 = vec![vec![path(&mut tabs, b"a.c"), AV::Udata(0)], vec![path(&mut tabs, b"b.c"), AV::Udata(1)]];
+        }
     }
     let n = 4 + r.usize(8);
-    let mut ins = gline::gen_program(r, &h, n, style % 2 == 0, true);
+    let mut random_part = gline::gen_program(r, &h, n, style % 2 == 0, true);
+    if style % 3 != 2 {
+        // keep file numbers inside the table so that the converters do not stop there
+        for i in random_part.iter_mut() {
+            if let LIns::SetFile(v) = i {
+                *v = if enc.version >= 5 { *v % 2 } else { 1 + *v % 2 };
+            }
+        }
+    }
     let mask = enc.addr_mask();
     let a0 = 0x10 & mask;
     let mut tail = vec![
@@ -162,7 +184,9 @@ fn mk_line(r: &mut Rng, enc: Enc, style: u64) -> LineOut {
         LIns::Special(op) => *op >= h.opcode_base,
         _ => true,
     });
-    ins.extend(tail);
+    // the fixed sequence first: converters stop at the first instruction they do not support
+    let mut ins = tail;
+    ins.extend(random_part);
     let mut a = Asm::new(enc.le);
     a.map = false;
     let mut spans = vec![];
@@ -244,8 +268,19 @@ fn list_slot(flavor: Flavor) -> SectionId {
     }
 }
 
-fn shrink_item(it: LItem) -> LItem {
-    let cut = |d: Option<Vec<u8>>| d.map(|mut v| { v.truncate(5); v });
+/// Keep expressions short; with `valid` replace them by small well-formed programs (random
+/// bytes rarely decode, and the converters parse every expression).
+fn shrink_item(it: LItem, valid: bool) -> LItem {
+    const GOOD: [&[u8]; 4] = [&[0x50], &[0x91, 0x7c], &[0x75, 0x08, 0x9f], &[0x53, 0x93, 0x04]];
+    let fix = move |mut v: Vec<u8>| -> Vec<u8> {
+        if valid {
+            GOOD[v.len() % 4].to_vec()
+        } else {
+            v.truncate(5);
+            v
+        }
+    };
+    let cut = |d: Option<Vec<u8>>| d.map(fix);
     match it {
         LItem::Pair(a, b, d) => LItem::Pair(a, b, cut(d)),
         LItem::StartxEndx(a, b, d) => LItem::StartxEndx(a, b, cut(d)),
@@ -253,10 +288,7 @@ fn shrink_item(it: LItem) -> LItem {
         LItem::OffsetPair(a, b, d) => LItem::OffsetPair(a, b, cut(d)),
         LItem::StartEnd(a, b, d) => LItem::StartEnd(a, b, cut(d)),
         LItem::StartLength(a, b, d) => LItem::StartLength(a, b, cut(d)),
-        LItem::Default(mut v) => {
-            v.truncate(5);
-            LItem::Default(v)
-        }
+        LItem::Default(v) => LItem::Default(fix(v)),
         other => other,
     }
 }
@@ -268,13 +300,13 @@ struct ListOut {
 
 /// Two lists of `flavor` (offsets table in version 5) and the `.debug_addr` table their index
 /// operands refer to.
-fn mk_list(r: &mut Rng, enc: Enc, flavor: Flavor, k: usize, n_items: usize) -> ListOut {
+fn mk_list(r: &mut Rng, enc: Enc, flavor: Flavor, k: usize, n_items: usize, valid_exprs: bool) -> ListOut {
     let mask = enc.addr_mask();
     let entries = glists::gen_addr_entries(r, mask, 4);
     let addr = glists::build_addr_table(r, enc, if enc.version >= 5 { 1 } else { 0 }, &entries);
     let cx = glists::ItemCtx { flavor, addr: enc.addr, addrs: &entries, base: glists::unit_base(k, mask), gnu_v5_kinds: k % 2 == 1 };
     let gen = |r: &mut Rng, n: usize| -> Vec<LItem> {
-        glists::gen_items(r, &cx, n).into_iter().map(shrink_item).filter(|it| glists::encodable(it, flavor, enc.addr)).collect()
+        glists::gen_items(r, &cx, n).into_iter().map(|it| shrink_item(it, valid_exprs)).filter(|it| glists::encodable(it, flavor, enc.addr)).collect()
     };
     let l0 = gen(r, n_items);
     let l1 = gen(r, 2);
@@ -311,8 +343,8 @@ fn info_seeds(ctx: &Ctx, n: usize, out: &mut Vec<Seed>) {
             let v5 = enc.version >= 5;
             let block = if enc.version >= 4 { forms::F_EXPRLOC } else { forms::F_BLOCK1 };
             let high_form = [forms::F_DATA4, forms::F_UDATA, forms::F_ADDR, forms::F_DATA8, forms::F_DATA1, forms::F_SDATA][(i / 2) % 6];
-            let rl = mk_list(&mut r, enc, flavor_for(enc.version, false, i), i, 3);
-            let ll = mk_list(&mut r, enc, flavor_for(enc.version, true, i / 2), i, 2);
+            let rl = mk_list(&mut r, enc, flavor_for(enc.version, false, i), i, 3, true);
+            let ll = mk_list(&mut r, enc, flavor_for(enc.version, true, i / 2), i, 2, true);
             let lo = mk_line(&mut r, enc, 0);
             let mask = enc.addr_mask();
             let low = [0x1000 & mask, mask - 0x20, 0x10, mask >> 1][(i / 2) % 4];
@@ -465,7 +497,7 @@ fn lists_seeds(ctx: &Ctx, n: usize, out: &mut Vec<Seed>) {
             enc.version = 4;
         }
         let mut r = Rng::new(mix64(ctx.seed ^ 0x1150_0000 ^ i as u64));
-        let lo = mk_list(&mut r, enc, flavor, i / 5 + (ctx.seed % 8) as usize, 5);
+        let lo = mk_list(&mut r, enc, flavor, i / 5 + (ctx.seed % 8) as usize, 5, (i / 5) % 2 == 0);
         let mask = enc.addr_mask();
         let base = glists::unit_base(i / 5 + (ctx.seed % 8) as usize, mask);
         let at = if flavor.is_loc() { dwc::AT_LOCATION } else { dwc::AT_RANGES };
@@ -524,8 +556,14 @@ fn cfi_seeds(ctx: &Ctx, n: usize, out: &mut Vec<Seed>) {
         let initial = [0x2000u64, 0x1000, 0x20, mask - 0x50][i % 4] & mask;
         let range = 0x40u64 & mask;
         let cat = cfi_catalogue(initial);
+        // every other seed is accepted by write::FrameTable::from (no DW_CFA_set_loc or unknown
+        // opcodes, absolute pointer encodings), so that the conversion reaches the writer
+        let convertible = i % 2 == 0;
         let pick = |r: &mut Rng, from: usize, k: usize| -> Vec<gcfi::Ins> {
             let mut v: Vec<gcfi::Ins> = (0..k).map(|j| cat[(from + j) % cat.len()].clone()).collect();
+            if convertible {
+                v.retain(|x| !matches!(x, gcfi::Ins::SetLoc(_) | gcfi::Ins::Raw { .. } | gcfi::Ins::NegateRaState | gcfi::Ins::RestoreState));
+            }
             v.insert(r.usize(v.len() + 1), gcfi::Ins::AdvanceLoc(1 + r.below(3) as u8));
             v
         };
@@ -538,16 +576,16 @@ fn cfi_seeds(ctx: &Ctx, n: usize, out: &mut Vec<Seed>) {
             let cie = CieSpec {
                 fmt64: enc.fmt64 && !eh || (eh && i % 5 == 4),
                 version: if eh { [1u8, 1, 3][i % 3] } else { [1u8, 3, 4][i % 3] },
-                aug: if eh { augs[i % augs.len()].to_vec() } else if i % 4 == 1 { b"zR".to_vec() } else { vec![] },
+                aug: if eh && convertible { [&b"zR"[..], b"", b"zRS", b"zLR"][(i / 2) % 4].to_vec() } else if eh { augs[i % augs.len()].to_vec() } else if i % 4 == 1 { b"zR".to_vec() } else { vec![] },
                 v4_addr_size: enc.addr,
                 v4_seg_size: 0,
                 code_align: ca,
                 data_align: da,
                 ra: [16u64, 30, 0x81][i % 3],
-                lsda_enc: [0x00u8, 0x1b, 0x03, 0xff][i % 4],
-                pers_enc: [0x00u8, 0x9b, 0x03, 0x04][(i / 2) % 4],
+                lsda_enc: if convertible { [0x00u8, 0x03, 0x0b, 0x04][(i / 2) % 4] } else { [0x00u8, 0x1b, 0x03, 0xff][i % 4] },
+                pers_enc: if convertible { [0x00u8, 0x03, 0x04, 0x0b][(i / 2) % 4] } else { [0x00u8, 0x9b, 0x03, 0x04][(i / 2) % 4] },
                 pers_target: 0x3000,
-                fde_enc: fde_encs[(i + (ctx.seed % 11) as usize) % fde_encs.len()],
+                fde_enc: if convertible { [0x00u8, 0x03, 0x0b, 0x04, 0x0c][(i / 2 + (ctx.seed % 5) as usize) % 5] } else { fde_encs[(i + (ctx.seed % 11) as usize) % fde_encs.len()] },
                 aug_pad: i % 3 / 2,
                 insns: pick(&mut r, from, 4),
                 pad_nops: r.usize(4),
@@ -938,5 +976,74 @@ pub fn regressions(ctx: &mut Ctx) {
             continue;
         }
         run_case(ctx, entry(ename), &s, p, None, "regress", what);
+    }
+}
+
+/// Debugging aid (GV_C01_DEBUG_SEEDS=1): why a generator seed is rejected by the converters.
+pub fn debug_seed_conversions(pool: &[Seed]) {
+    use gimli::write;
+    for sd in pool.iter().filter(|s| !s.is_base()) {
+        let endian = sd.enc.endian();
+        let dwarf: gimli::Dwarf<gimli::EndianSlice<gimli::RunTimeEndian>> = gimli::Dwarf::load(|id| Ok::<_, ()>(gimli::EndianSlice::new(sd.secs.get(id), endian))).unwrap();
+        if sd.entries.contains(&"conv.dwarf_from") {
+            let r = write::Dwarf::from(&dwarf, &|a| Some(write::Address::Constant(a)));
+            eprintln!("{} {} dwarf_from: {:?}", sd.name, sd.enc.label(), r.as_ref().map(|_| ()).map_err(|e| format!("{e:?}")));
+            if r.is_err() && sd.origin == "gen.info" {
+                eprintln!("   info {} abbrev {}", crate::rt::hex(sd.secs.get(SectionId::DebugInfo)), crate::rt::hex(sd.secs.get(SectionId::DebugAbbrev)));
+                let mut it = dwarf.units();
+                while let Ok(Some(h)) = it.next() {
+                    match dwarf.unit(h) {
+                        Err(e) => eprintln!("   unit: {e:?}"),
+                        Ok(u) => {
+                            let mut c = u.entries();
+                            loop {
+                                match c.next_dfs() {
+                                    Ok(Some(e)) => {
+                                        eprintln!("    <{:x}> {:?}", e.offset().0, e.tag());
+                                        for a in e.attrs() {
+                                            eprintln!("     {:?} {:?}", a.name(), a.value());
+                                        }
+                                    }
+                                    Ok(None) => break,
+                                    Err(e) => {
+                                        eprintln!("   entry err {e:?}");
+                                        break;
+                                    }
+                                }
+                            }
+                        }
+                    }
+                }
+            }
+            if let Ok(mut w) = r {
+                let mut sections = write::Sections::new(write::EndianVec::new(endian));
+                eprintln!("   write: {:?}", w.write(&mut sections));
+            }
+        }
+        if sd.entries.contains(&"conv.line") || sd.origin == "gen.info" {
+            let prog = dwarf.debug_line.program(gimli::DebugLineOffset(0), sd.enc.addr, Some(gimli::EndianSlice::new(b"/d", endian)), Some(gimli::EndianSlice::new(b"n.c", endian)));
+            match prog {
+                Err(e) => eprintln!("{} {} line parse: {e:?}", sd.name, sd.enc.label()),
+                Ok(prog) => {
+                    let mut w = write::Dwarf::new();
+                    let r = (|| -> write::ConvertResult<()> {
+                        let conv = w.read_line_program(&dwarf, prog.clone(), None, None)?;
+                        let _ = conv.convert(&|a| Some(write::Address::Constant(a)))?;
+                        Ok(())
+                    })();
+                    eprintln!("{} {} conv.line: {:?}", sd.name, sd.enc.label(), r.map_err(|e| format!("{e:?}")));
+                }
+            }
+        }
+        if sd.entries.contains(&"conv.frame") {
+            let mut sec = gimli::DebugFrame::from(gimli::EndianSlice::new(sd.secs.get(SectionId::DebugFrame), endian));
+            sec.set_address_size(sd.enc.addr);
+            let r = write::FrameTable::from(&sec, &|a| Some(write::Address::Constant(a)));
+            eprintln!("{} {} frame(debug_frame): {:?}", sd.name, sd.enc.label(), r.map(|_| ()).map_err(|e| format!("{e:?}")));
+            let mut sec = gimli::EhFrame::from(gimli::EndianSlice::new(sd.secs.get(SectionId::EhFrame), endian));
+            sec.set_address_size(sd.enc.addr);
+            let r = write::FrameTable::from(&sec, &|a| Some(write::Address::Constant(a)));
+            eprintln!("{} {} frame(eh_frame): {:?}", sd.name, sd.enc.label(), r.map(|_| ()).map_err(|e| format!("{e:?}")));
+        }
     }
 }
